@@ -1053,18 +1053,23 @@ pub fn sublist3(list: &Value, position_value: &Value, length_value: &Value) -> V
           if position_number.is_positive() {
             if let Some(position) = position_number.to_usize() {
               let first = position - 1;
-              let last = first + length;
-              if first < items.len() && last <= items.len() {
-                return Value::List(Values::new(items.as_vec()[first..last].to_vec()));
+              // the sum may be out of range of usize
+              if let Some(last) = first.checked_add(length) {
+                if first < items.len() && last <= items.len() {
+                  return Value::List(Values::new(items.as_vec()[first..last].to_vec()));
+                }
               }
             }
           }
           if position_number.is_negative() {
             if let Some(position) = position_number.abs().to_usize() {
-              let first = items.len() - position;
-              let last = first + length;
-              if first < items.len() && last <= items.len() {
-                return Value::List(Values::new(items.as_vec()[first..last].to_vec()));
+              // the position may lie in front of the list, the sum may be out of range of usize
+              if let Some(first) = items.len().checked_sub(position) {
+                if let Some(last) = first.checked_add(length) {
+                  if first < items.len() && last <= items.len() {
+                    return Value::List(Values::new(items.as_vec()[first..last].to_vec()));
+                  }
+                }
               }
             }
           }
